@@ -120,7 +120,13 @@ def namings(tier: str) -> list[dict]:
         for t in ("T01", "T03"):
             stin.append({**n, "template": t, "stored_input": True, "id": f"{n['id']}S{t}",
                          "family": "stored_input_output"})
-    return sel + twice + pref + stin, gen_states, len(out)
+    # TRAVERSAL ORDER: the same wrapped-data namings with the wrapper reached BEFORE the named
+    # input (bindings are visited in sorted order: `D + a*2` instead of `a*2 + D`) -- names
+    # the user chose are reserved before any name is generated, whatever comes first
+    wfirst = [{**n, "wfirst": True, "id": n["id"] + "W", "family": "wrapper_before_input"}
+              for n in sel if n.get("family") == "wrapped_data"
+              and (n.get("kind") == "prefix" or n["ins"][0].startswith("_pt_"))]
+    return sel + twice + pref + stin + wfirst, gen_states, len(out)
 
 
 def build_template(n: dict) -> tuple[Any, dict, dict]:
@@ -160,7 +166,7 @@ def build_template(n: dict) -> tuple[Any, dict, dict]:
         elif n["kind"] == "prefix":
             D = D.tagged(PrefixNamed(n["dw"]))
         wrapped = {"d1": d1}
-        expr = a * 2 + D
+        expr = D + a * 2 if n.get("wfirst") else a * 2 + D
         if n["ndw"] == 2:
             expr = expr + pt.make_data_wrapper(d2) * 3
             wrapped["d2"] = d2
@@ -210,7 +216,7 @@ def observe(n: dict) -> dict:
     rec: dict[str, Any] = {"id": n["id"], "expect": n["expect"], "family": n["family"],
                            "naming": {k: n[k] for k in ("ins", "outs", "named", "template",
                                                         "kind", "dw", "ndw", "sp", "kinds",
-                                                        "dws", "same", "prefix_temp")
+                                                        "dws", "same", "prefix_temp", "wfirst")
                                       if k in n}}
     try:
         outs, wrapped, aux = build_template(n)
